@@ -527,6 +527,7 @@ type FuncContract struct {
 	Inline   bool
 	Pure     bool
 	Trusted  bool   // external: assumed, never verified
+	ReadsArgs bool  // external: documented not to write its receiver/arguments themselves (callbacks aside)
 	Params   []string // explicit parameter names for externals (optional)
 	Results  []string
 	Where    string
@@ -577,7 +578,7 @@ type ContractFile struct {
 var clauseKeywords = map[string]bool{
 	"func": true, "requires": true, "ensures": true, "check": true, "defines": true, "assigns": true, "loop": true,
 	"ghost": true, "pred": true, "define": true, "axiom": true, "lemma": true, "inline": true,
-	"invariant": true, "decreases": true, "trusted": true, "pure": true, "note": true, "unroll": true, "ginv": true, "like": true, "frame": true,
+	"invariant": true, "decreases": true, "trusted": true, "pure": true, "readsargs": true, "note": true, "unroll": true, "ginv": true, "like": true, "frame": true,
 }
 
 // ParseContractFile reads //@ lines (or all lines if raw is true).
@@ -715,6 +716,10 @@ func ParseContractFile(path, pkg string, raw bool) (*ContractFile, error) {
 				return nil, fmt.Errorf("%s: trusted outside func", where)
 			}
 			cur.Trusted = true
+		case "readsargs":
+			if cur != nil {
+				cur.ReadsArgs = true
+			}
 		case "pure":
 			if cur == nil {
 				return nil, fmt.Errorf("%s: pure outside func", where)
